@@ -583,8 +583,8 @@ func (g *Gen) addDefault(p *Schema) {
 		if p.Items == nil || p.Items.Ref != "" {
 			return
 		}
-		it, _, ok := p.Items.NonNullType()
-		if !ok || p.Items.HasEnum || p.MinItems > 2 {
+		it, inul, ok := p.Items.NonNullType()
+		if !ok || p.Items.HasEnum || p.MinItems > 2 || (inul && !g.O.Hazard) {
 			return
 		}
 		var el any
